@@ -23,12 +23,15 @@ type Case struct {
 	CAKey   string           `json:"ca_key"`
 	Depth   int              `json:"depth"`
 	LeafEKU bool             `json:"leaf_has_eku"` // false: the client certificate carries no EKU extension at all
+	// Prelude: before the case, a certificate issued by the same-name sibling CA (another trusted CA that shares the
+	// issuer's name, e.g. after a re-key) is checked successfully through its own responder
+	Prelude bool `json:"prelude"`
 	// byte-level mutation of the response (applied after building): -1 none
 	MutPos  int `json:"mut_pos"`
 	MutMask int `json:"mut_mask"`
 }
 
-var signers = []string{"issuer", "issuer", "delegated", "delegated-noeku", "delegated-clientauth", "client", "stranger-embedded", "stranger", "sibling"}
+var signers = []string{"issuer", "issuer", "delegated", "delegated-big", "mimic", "delegated-noeku", "delegated-clientauth", "client", "stranger-embedded", "stranger", "sibling"}
 var kinds = []string{"good", "good", "revoked", "revoked", "unknown", "trylater", "unauthorized", "internal", "malformed", "sigrequired", "garbage", "html", "empty"}
 
 func genCase(t *rapid.T) Case {
@@ -37,6 +40,7 @@ func genCase(t *rapid.T) Case {
 		CAKey:   rapid.SampledFrom([]string{"p256a", "rsa2048a", "p384"}).Draw(t, "cakey"),
 		Depth:   rapid.IntRange(1, 2).Draw(t, "depth"),
 		LeafEKU: rapid.Bool().Draw(t, "leafeku"),
+		Prelude: rapid.IntRange(0, 2).Draw(t, "prelude") == 0,
 		MutPos:  -1,
 	}
 	c.Answer.Kind = rapid.SampledFrom(kinds).Draw(t, "kind")
@@ -113,6 +117,14 @@ func runCase(c Case, x *ev.Ctx) error {
 		return b
 	}
 	chk := world.NewOCSPChecker(world.OCSPOpts{Strict: c.Strict, Cache: 30 * time.Second})
+	if c.Prelude {
+		sibLeaf := gen.Issue(gen.CertSpec{Key: "p256d", Subject: gen.CN(name + " sibling client"), SerialHex: "0badc0df", OCSP: []string{o.URL("/sib-ocsp")}, AKI: "absent"}, parties.Sibling)
+		sp := world.NewOCSPParties(name+" sib", parties.Sibling, sibLeaf)
+		world.NewResponder(o, "/sib-ocsp", sp, world.OCSPAnswer{Kind: "good"})
+		if pv := world.Ask(chk, [][]*x509.Certificate{{sibLeaf.Cert, parties.Sibling.Cert}}); pv.Kind != "ok" {
+			return fmt.Errorf("prelude: certificate of the same-name sibling CA with an authentic 'good' answer got %v", pv)
+		}
+	}
 	v := world.Ask(chk, chains)
 	if served == nil {
 		return fmt.Errorf("setup: the responder was never asked (verdict %v)", v)
@@ -156,16 +168,16 @@ func runCase(c Case, x *ev.Ctx) error {
 	}
 	x.Class("non-authentic")
 	if len(served) > 5 {
-		x.NonTrivial(fmt.Sprintf("forged|%+v|%v|%s|%d|%d|%v", c.Answer, c.Strict, c.CAKey, c.Depth, c.MutPos%32, c.LeafEKU))
+		x.NonTrivial(fmt.Sprintf("forged|%+v|%v|%s|%d|%d|%v|%v", c.Answer, c.Strict, c.CAKey, c.Depth, c.MutPos%32, c.LeafEKU, c.Prelude))
 	}
 	return nil
 }
 
 var spec = ev.Spec[Case]{
-	ID:  "C05",
-	Gen: genCase,
-	Run: runCase,
-	Rule: "rapid draws one OCSP response for the presented certificate: signer in {issuer, issuer-delegated responder with OCSPSigning EKU, issuer-signed certificate without any EKU, issuer-signed certificate with clientAuth EKU, the client certificate itself (with / without an EKU extension), self-signed stranger with or without embedded certificate, same-name sibling CA}, serial in {this, other}, status in {good, revoked, unknown}, response status in {successful, tryLater, unauthorized, internalError, malformedRequest, sigRequired}, garbage / HTML / empty bodies, nextUpdate in {absent, future, past}, and in a quarter of the cases a single-bit or byte mutation at a drawn position of an otherwise authentic response. Whether the served bytes are authentic is decided by the reference (library parse bound to the leaf and the issuer + OCSPSigning check on an embedded responder). Oracle: an authentic answer decides by its status; a non-authentic one is no answer: strict => the handshake errors, lenient => accepted even if it says revoked, and nothing is cached (the responder then answers authentically 'revoked' and the next handshake must be rejected, with a 30 s cache configured). Non-trivial: the bytes are a non-empty response; distinct by (answer shape, strict, key, depth, mutation bucket).",
+	ID:          "C05",
+	Gen:         genCase,
+	Run:         runCase,
+	Rule:        "rapid draws one OCSP response for the presented certificate: signer in {issuer, issuer-delegated responder with OCSPSigning EKU, issuer-signed certificate without any EKU, issuer-signed certificate with clientAuth EKU, the client certificate itself (with / without an EKU extension), self-signed stranger with or without embedded certificate, same-name sibling CA}, serial in {this, other}, status in {good, revoked, unknown}, response status in {successful, tryLater, unauthorized, internalError, malformedRequest, sigRequired}, garbage / HTML / empty bodies, nextUpdate in {absent, future, past}, and in a quarter of the cases a single-bit or byte mutation at a drawn position of an otherwise authentic response. Whether the served bytes are authentic is decided by the reference (library parse bound to the leaf and the issuer + OCSPSigning check on an embedded responder). Oracle: an authentic answer decides by its status; a non-authentic one is no answer: strict => the handshake errors, lenient => accepted even if it says revoked, and nothing is cached (the responder then answers authentically 'revoked' and the next handshake must be rejected, with a 30 s cache configured). Non-trivial: the bytes are a non-empty response; distinct by (answer shape, strict, key, depth, mutation bucket).",
 	Assumptions: []string{"golang.org/x/crypto/ocsp's authenticated parse (ParseResponseForCert with an issuer) is the trusted reference for signature and serial matching"},
 }
 
